@@ -5,6 +5,7 @@ package main
 
 import (
 	"bufio"
+	"os"
 	"fmt"
 	"io"
 	"math/big"
@@ -148,6 +149,7 @@ func (s *SolverStats) add(kind string, d time.Duration) {
 
 // Pool is a per-worker set of solver processes.
 type Pool struct {
+	mu    sync.Mutex
 	procs map[string]*proc
 	// live model session (the process that answered sat last)
 	session *proc
@@ -156,12 +158,16 @@ type Pool struct {
 func NewPool() *Pool { return &Pool{procs: map[string]*proc{}} }
 
 func (pl *Pool) Close() {
+	pl.mu.Lock()
+	defer pl.mu.Unlock()
 	for _, p := range pl.procs {
 		p.kill()
 	}
 }
 
 func (pl *Pool) get(kind string) (*proc, error) {
+	pl.mu.Lock()
+	defer pl.mu.Unlock()
 	p := pl.procs[kind]
 	if p != nil && !p.dead {
 		return p, nil
@@ -174,14 +180,36 @@ func (pl *Pool) get(kind string) (*proc, error) {
 	return p, nil
 }
 
+func (pl *Pool) abandon(kind string) {
+	pl.mu.Lock()
+	p := pl.procs[kind]
+	pl.mu.Unlock()
+	if p != nil {
+		p.kill()
+	}
+}
+
 // runOne sends the script to one backend.
-func (pl *Pool) runOne(kind, script string, timeoutMs int) Result {
+func (pl *Pool) runOne(kind string, q *Query, timeoutMs int) (Result, *proc) {
 	p, err := pl.get(kind)
 	if err != nil {
-		return Unknown
+		return Unknown, nil
+	}
+	script := q.Def
+	if kind == "z3" {
+		script = q.Eq
 	}
 	start := time.Now()
-	defer func() { stats.add(kind, time.Since(start)) }()
+	defer func() {
+		stats.add(kind, time.Since(start))
+		if debugSolver && time.Since(start) > 2*time.Second {
+			fmt.Printf("SLOW-QUERY %s %.1fs script=%dB\n", kind, time.Since(start).Seconds(), len(script))
+			if os.Getenv("VERIF_DUMP_SLOW") != "" {
+				dumpN++
+				_ = os.WriteFile(fmt.Sprintf("%s/slow%d.smt2", os.Getenv("VERIF_DUMP_SLOW"), dumpN), []byte(script), 0o644)
+			}
+		}
+	}()
 	p.mark++
 	marker := fmt.Sprintf("DONE%d", p.mark)
 	var sb strings.Builder
@@ -195,14 +223,20 @@ func (pl *Pool) runOne(kind, script string, timeoutMs int) Result {
 	}
 	sb.WriteString(script)
 	fmt.Fprintf(&sb, "(echo \"%s\")\n", marker)
-	if _, err := io.WriteString(p.in, sb.String()); err != nil {
-		p.kill()
-		return Unknown
-	}
-	lines, err := p.readUntil(marker, time.Now().Add(time.Duration(timeoutMs)*time.Millisecond+5*time.Second))
+	deadline := time.Now().Add(time.Duration(timeoutMs)*time.Millisecond + 3*time.Second)
+	werr := make(chan error, 1)
+	go func() {
+		_, err := io.WriteString(p.in, sb.String())
+		werr <- err
+	}()
+	lines, err := p.readUntil(marker, deadline)
 	if err != nil {
 		p.kill()
-		return Unknown
+		return Unknown, p
+	}
+	if e := <-werr; e != nil {
+		p.kill()
+		return Unknown, p
 	}
 	res := Unknown
 	bad := false
@@ -224,30 +258,68 @@ func (pl *Pool) runOne(kind, script string, timeoutMs int) Result {
 	if bad {
 		atomic.AddInt64(&stats.Errors, 1)
 		lastSolverError = strings.Join(lines, " ")
-		return Unknown
+		return Unknown, p
 	}
-	if res == Sat {
-		pl.session = p
+	return res, p
+}
+
+var debugSolver bool
+var dumpN int
+var lastSolverError string
+
+// race runs the query on several backends at once and returns the first definitive answer.
+func (pl *Pool) race(kinds []string, q *Query, ms int) Result {
+	type ans struct {
+		r    Result
+		p    *proc
+		kind string
+	}
+	ch := make(chan ans, len(kinds))
+	for _, k := range kinds {
+		k := k
+		go func() {
+			r, p := pl.runOne(k, q, ms)
+			ch <- ans{r, p, k}
+		}()
+	}
+	res := Unknown
+	got := 0
+	var pending = map[string]bool{}
+	for _, k := range kinds {
+		pending[k] = true
+	}
+	for got < len(kinds) {
+		a := <-ch
+		got++
+		delete(pending, a.kind)
+		if a.r != Unknown {
+			res = a.r
+			if a.r == Sat {
+				pl.session = a.p
+			}
+			// abandon the losers: kill their processes (restarted lazily)
+			for k := range pending {
+				pl.abandon(k)
+			}
+			// drain
+			for got < len(kinds) {
+				<-ch
+				got++
+			}
+			break
+		}
 	}
 	return res
 }
 
-var debugSolver bool
-var lastSolverError string
-
-// Check decides the script with a portfolio. quickMs is the time given to the
-// default backend; on unknown the others are consulted with slowMs.
-func (pl *Pool) Check(script string, quickMs, slowMs int) Result {
+// Check decides the query with a portfolio: z3 5.x and z3 4.8.12 race first; if
+// neither answers within quickMs all four back ends race with slowMs.
+func (pl *Pool) Check(q *Query, quickMs, slowMs int) Result {
 	atomic.AddInt64(&stats.Queries, 1)
 	pl.session = nil
-	r := pl.runOne("z3", script, quickMs)
+	r := pl.race([]string{"z3new", "z3"}, q, quickMs)
 	if r == Unknown && slowMs > 0 {
-		for _, k := range []string{"cvc5int", "z3new", "cvc5"} {
-			r = pl.runOne(k, script, slowMs)
-			if r != Unknown {
-				break
-			}
-		}
+		r = pl.race([]string{"z3new", "z3", "cvc5", "cvc5int"}, q, slowMs)
 	}
 	switch r {
 	case Sat:
@@ -260,10 +332,10 @@ func (pl *Pool) Check(script string, quickMs, slowMs int) Result {
 	return r
 }
 
-// CheckAgree runs two different backends and reports disagreement as Unknown.
-func (pl *Pool) CheckBoth(script string, ms int) (Result, string) {
-	r1 := pl.runOne("z3", script, ms)
-	r2 := pl.runOne("cvc5", script, ms)
+// CheckBoth runs two different solver families and reports disagreement as Unknown.
+func (pl *Pool) CheckBoth(q *Query, ms int) (Result, string) {
+	r1 := pl.race([]string{"z3new", "z3"}, q, ms)
+	r2, _ := pl.runOne("cvc5", q, ms)
 	if r1 == Unknown {
 		return r2, "cvc5"
 	}
